@@ -299,8 +299,8 @@ def run(ctx):
         head = f"{kind} ({'public' if public else 'private'}, {form}) referenced {where}"
         ex = classes[sorted(classes)[0]]
         cli = "; ".join(ex["commands"])
-        if set(classes) >= demanded.get((where, kind, public, form), set()) and len(classes) > 1:
-            ctx.violation(f"{head} through every import shape ({'/'.join(sorted(classes))}): {what}", ex, cli_cmd=cli)
+        if set(classes) >= demanded.get((where, kind, public, form), set()):
+            ctx.violation(f"{head} through every import shape: {what}", dict(ex, import_shapes=sorted(classes)), cli_cmd=cli)
         else:
             for gc in sorted(classes):
                 ctx.violation(f"{head} through a {gc} import: {what}", classes[gc], cli_cmd="; ".join(classes[gc]["commands"]))
